@@ -23,6 +23,15 @@ class TMatchT(T):
 
 
 MATCH = TMatchT()
+
+
+def _field(term, k):
+    """Field k of a Match term without z3.simplify (which rewrites seq.nth inside the arguments into solver-internal forms):
+    a constructor application is taken apart syntactically, anything else goes through the accessor."""
+    if z3.is_app(term) and term.decl().eq(MATCH._dt.mk):
+        return term.arg(k)
+    acc = (MATCH._dt.pid, MATCH._dt.subj, MATCH._dt.pos)[k]
+    return z3.simplify(acc(term))
 OPT_MATCH = TOpt(MATCH)
 OPT_STR = TOpt(STR)
 
@@ -39,6 +48,9 @@ class RxWorld:
         self.subf = z3.Function('rx.sub', z3.IntSort(), z3.StringSort(), z3.StringSort(), z3.StringSort())
         self.sub_cb = z3.Function('rx.sub_callback', z3.IntSort(), z3.StringSort(), z3.StringSort())
         self.findall = z3.Function('rx.findall', z3.IntSort(), z3.StringSort(), z3.SeqSort(z3.StringSort()))
+        # start positions of the successive matches finditer() yields (an uninterpreted sequence: what is known of it is stated, as
+        # assumptions validated natively, by the contract that iterates it)
+        self.starts = z3.Function('rx.finditer_starts', z3.IntSort(), z3.StringSort(), z3.SeqSort(z3.IntSort()))
 
     def pid(self, pat: re.Pattern):
         key = (pat.pattern, pat.flags)
@@ -140,13 +152,13 @@ class RxWorld:
         return V(MATCH, MATCH._dt.mk(z3.IntVal(pid), subj, pos))
 
     def group(self, eng, m: V, g, st, node):
-        pidt = z3.simplify(MATCH._dt.pid(m.term))
+        pidt = _field(m.term, 0)
         if not z3.is_int_value(pidt):
             raise Unsupported('match object of statically unknown pattern', node)
         pid = pidt.as_long()
         pat, info = self.by_id[pid]
-        s = z3.simplify(MATCH._dt.subj(m.term))
-        pos = z3.simplify(MATCH._dt.pos(m.term))
+        s = _field(m.term, 1)
+        pos = _field(m.term, 2)
         if g == 0:
             e = self.end(z3.IntVal(pid), s, pos)
             return V(STR, z3.SubString(s, pos, e - pos))
@@ -218,6 +230,11 @@ def install(world):
                                 eng.may_raise(st, exc, z3.Bool(fresh_name('cb.raises')), f'callback {repl.obj[1]}')
                     return V(STR, rx.sub_cb(z3.IntVal(pid), subj.term))
                 raise Unsupported('re.sub with a callable replacement', node)
+            if attr == 'finditer':
+                subj = eng.coerce(args[0], STR, node)
+                pid, info = rx.pid(pat)
+                # iterated by st_For: element k is the match object of this pattern on this subject starting at starts[k]
+                return VPy(('finditer', pid, subj, V(TSeq(INT), rx.starts(z3.IntVal(pid), subj.term))))
             if attr == 'findall':
                 subj = eng.coerce(args[0], STR, node)
                 pid, info = rx.pid(pat)
@@ -236,9 +253,12 @@ def install(world):
                     raise Unsupported('group() with a non-constant argument', node)
                 return rx.group(eng, base, gv, st, node)
             if attr in ('start', 'end'):
-                pidt = z3.simplify(MATCH._dt.pid(base.term))
-                s = z3.simplify(MATCH._dt.subj(base.term))
-                pos = z3.simplify(MATCH._dt.pos(base.term))
+                g = args[0] if args else const_value(0)
+                if not ((isinstance(g, VPy) and g.obj == 0) or (isinstance(g, V) and z3.is_int_value(z3.simplify(g.term)) and z3.simplify(g.term).as_long() == 0)):
+                    raise Unsupported(f'match.{attr}() of a group other than 0', node)
+                pidt = _field(base.term, 0)
+                s = _field(base.term, 1)
+                pos = _field(base.term, 2)
                 if attr == 'start':
                     return V(INT, pos)
                 return V(INT, rx.end(pidt, s, pos))
